@@ -1,10 +1,14 @@
 import Proofs.ForPrefixes
 import Proofs.Resolve
-/-! C05 — webentity page sets. Proved so far: the answer is, prefix by prefix in the given order, the
-    pages met by the webentity walk of that prefix with their current crawled marks; the crawled-only
-    variant is exactly the filter by the mark; an unknown prefix is refused with the library's own
-    error. That the walk from prefix `p` meets page `x` iff `p` is the longest attached prefix of `x`
-    (partition) is under construction in Proofs/Shape*. -/
+import Proofs.PagesApi
+/-! C05 — webentity page sets, in full (Proofs/PagesApi): in every reachable state, asking webentity `w`
+    with its full current prefix list (`FullPrefixList`: any order, the list `webentity_prefix_iter` yields
+    qualifies, `C05_prefix_list_exists`) answers exactly the indexed pages whose resolution is `w`, with
+    their current crawled marks (`C05_partition`); each page once when no prefix is given twice, and in
+    general as many times as its defining prefix was given (`C05_count_law`); a page listed under `w` is
+    listed under no other webentity, a page without webentity under none; pages below a nested webentity's
+    prefix are excluded (`C05_nested`); the crawled-only answer is the filter by the mark (`C05_crawled`).
+    The per-prefix walk lemmas the proof is built from are kept below. -/
 namespace Traph.Props
 open Traph State
 
@@ -48,5 +52,59 @@ theorem C05_nested_excluded {s : State} {a : Nat} {l c r : T} {lo hi : Option St
     {q : LRU} {b : Nat} (hq : (q, b) ∈ c.entries s []) :
     (∃ lru, (b, lru) ∈ (T.node a l c r).wePre s a lru0) ↔ c.resolveAlong s q 0 = 0 :=
   C05_walk_is_resolution' hord hnd lru0 hq
+
+/-- THE PROPERTY, for every reachable state (any history of writes from a fresh index, any rules, any
+    configuration; `NoKeyErr` names the requests the library itself aborts with KeyError mid-way) and every
+    webentity `w` asked with a full prefix list `ps` in any order -/
+theorem C05_partition (cfg : Config) (dflt : Rule) (rules : List (Bytes × Rule)) (ops : List Op)
+    (hrules : ∀ ar ∈ rules, lruIter ar.1 ≠ [])
+    (hop : ∀ op ∈ ops, ∀ d rs, op ≠ .clear d rs) (hwf : ∀ op ∈ ops, OpWf op)
+    (hok : NoKeyErr (State.fresh cfg dflt rules []).1 ops)
+    (s : State) (hs : s = (State.fresh cfg dflt rules []).1.run ops) :
+    ∃ t, Shape s t ∧ Inv s t ∧
+      (∀ w ps, FullPrefixList s w ps →
+        ∃ l, s.webentityPages ps = .ok l ∧
+          (∀ lru c, (lru, c) ∈ l ↔
+            lru = (lruIter lru).flatten ∧ IsPage s t (lruIter lru) ∧ s.retrieveWebentity lru = .ok w ∧
+              (c = true ↔ IsCrawled s t (lruIter lru))) ∧
+          ((ps.map lruIter).Nodup → (l.map (·.1)).Nodup) ∧
+          (∀ lru c, (lru, c) ∈ l → ∃ P, P <+: lruIter lru ∧ IsPrefixOf s w P ∧
+            (l.map (·.1)).count lru = (ps.map lruIter).count P) ∧
+          (∀ X, IsPage s t X → s.retrieveWebentity X.flatten = .ok w → ∃ c, (X.flatten, c) ∈ l) ∧
+          (∀ lru c, (lru, c) ∈ l → ∀ w' ps' l', FullPrefixList s w' ps' → s.webentityPages ps' = .ok l' →
+            (∃ c', (lru, c') ∈ l') → w' = w) ∧
+          (∀ lru e, s.retrieveWebentity lru = .error e → ∀ c, (lru, c) ∉ l) ∧
+          s.webentityCrawledPages ps = .ok (l.filter (·.2)) ∧
+          (∀ lru c, (lru, c) ∈ l.filter (·.2) ↔
+            c = true ∧ lru = (lruIter lru).flatten ∧ IsCrawled s t (lruIter lru) ∧
+              s.retrieveWebentity lru = .ok w)) ∧
+      (∀ w, w ≠ 0 → FullPrefixList s w (prefixesOf s w) ∧ ((prefixesOf s w).map lruIter).Nodup) :=
+  C05_reachable cfg dflt rules ops hrules hop hwf hok s hs
+
+/-- the same with no ghost tree in the statement: membership is phrased with the model's own
+    `lru_node`, block flags and `retrieve_webentity` -/
+theorem C05_partition_model (cfg : Config) (dflt : Rule) (rules : List (Bytes × Rule)) (ops : List Op)
+    (hrules : ∀ ar ∈ rules, lruIter ar.1 ≠ [])
+    (hop : ∀ op ∈ ops, ∀ d rs, op ≠ .clear d rs) (hwf : ∀ op ∈ ops, OpWf op)
+    (hok : NoKeyErr (State.fresh cfg dflt rules []).1 ops)
+    (s : State) (hs : s = (State.fresh cfg dflt rules []).1.run ops)
+    (w : Nat) (ps : List Bytes) (hf : FullPrefixList s w ps) :
+    ∃ l, s.webentityPages ps = .ok l ∧
+      (∀ lru c, (lru, c) ∈ l ↔
+        lru = (lruIter lru).flatten ∧ s.retrieveWebentity lru = .ok w ∧
+          ∃ b, s.lruNode (lruIter lru) = some b ∧ (s.cell b).flags.page = true ∧
+            c = (s.cell b).flags.crawled) ∧
+      ((ps.map lruIter).Nodup → (l.map (·.1)).Nodup) ∧
+      s.webentityCrawledPages ps = .ok (l.filter (·.2)) :=
+  C05_reachable_model cfg dflt rules ops hrules hop hwf hok s hs w ps hf
+
+/-- pages below a nested webentity's prefix are excluded from the enclosing one: if a listed page lies
+    below a prefix `Q` of another webentity `v`, then some prefix of `w` lies between `Q` and the page -/
+theorem C05_nested {s : State} {t : T} (h : Shape s t) (hi : Inv s t) {w : Nat} {ps : List Bytes}
+    (hf : FullPrefixList s w ps) {l : List (Bytes × Bool)} (hl : s.webentityPages ps = .ok l)
+    {lru : Bytes} {c : Bool} (hm : (lru, c) ∈ l) {v : Nat} (hv : v ≠ 0) {Q : LRU}
+    (hQ : IsPrefixOf s v Q) (hQX : Q <+: lruIter lru) :
+    ∃ P, IsPrefixOf s w P ∧ Q <+: P ∧ P <+: lruIter lru :=
+  Traph.C05_nested h hi hf hl hm hv hQ hQX
 
 end Traph.Props
